@@ -442,7 +442,7 @@ func sameNilSubject(a, b ssa.Value) bool {
 			if x.Val == ssa.Value(cell) {
 				return false // the address escapes
 			}
-			if x.Addr == ssa.Value(cell) && Reaches(la, x) && Reaches(x, lb) {
+			if x.Addr == ssa.Value(cell) && rawReaches(la, x) && rawReaches(x, lb) {
 				// a store of the very value that was loaded back (`*err = *err` before rundefers) changes nothing
 				if ld, isLd := x.Val.(*ssa.UnOp); isLd && ld.Op == token.MUL && ld.X == ssa.Value(cell) {
 					continue
@@ -923,4 +923,31 @@ func SimplifyPhis(fns []*ssa.Function) int {
 		liveCache = map[*ssa.Function][]bool{}
 	}
 	return total
+}
+
+// rawReaches: b can execute after a along plain CFG edges (no feasibility
+// pruning — usable from inside the condition evaluation, which the pruned
+// traversals themselves call).
+func rawReaches(a, b ssa.Instruction) bool {
+	if a.Parent() != b.Parent() || a.Block() == nil || b.Block() == nil {
+		return false
+	}
+	if a.Block() == b.Block() && InstrIndex(a) < InstrIndex(b) {
+		return true
+	}
+	seen := map[*ssa.BasicBlock]bool{}
+	work := append([]*ssa.BasicBlock{}, a.Block().Succs...)
+	for len(work) > 0 {
+		x := work[len(work)-1]
+		work = work[:len(work)-1]
+		if seen[x] {
+			continue
+		}
+		seen[x] = true
+		if x == b.Block() {
+			return true
+		}
+		work = append(work, x.Succs...)
+	}
+	return false
 }
